@@ -240,9 +240,10 @@ func runScript(out *vh.Out, sc Script, idx int) {
 			case "reset":
 				for _, r := range rigs {
 					r.arm(st)
-					r.mp.Reset(cam)
+					capture(r, main, func() { r.mp.Reset(cam) })
 				}
 				ev := map[string]interface{}{"ev": "reset", "calls": main.snapshotCalls()}
+				takeLogs(ev)
 				if shadow != nil {
 					ev["calls2"] = projM(shadow.calls)
 				}
@@ -258,12 +259,14 @@ func runScript(out *vh.Out, sc Script, idx int) {
 				var isBad bool
 				for _, r := range rigs {
 					r.arm(st)
-					err := r.mp.Process(raw)
+					var err error
+					capture(r, main, func() { err = r.mp.Process(raw) })
 					if r == main {
 						_, isBad = err.(*lepton3.BadFrameErr)
 					}
 				}
 				ev := map[string]interface{}{"ev": "bad", "isbad": isBad, "calls": main.snapshotCalls()}
+				takeLogs(ev)
 				if shadow != nil {
 					ev["calls2"] = projM(shadow.calls)
 				}
@@ -314,13 +317,15 @@ func runScript(out *vh.Out, sc Script, idx int) {
 					r.now = day.Add(time.Duration(nowS) * time.Second)
 					r.arm(st)
 					r.cur = id
-					err := r.mp.Process(raw)
+					var err error
+					capture(r, main, func() { err = r.mp.Process(raw) })
 					if r == main {
 						perr = err
 					}
 				}
 				ev := map[string]interface{}{"ev": "frame", "id": id, "motion": main.l.motion, "want": st.Motion,
 					"now": nowS, "disk": b(st.Disk), "err": perr != nil, "calls": main.snapshotCalls()}
+				takeLogs(ev)
 				if shadow != nil {
 					ev["calls2"] = projM(shadow.calls)
 				}
@@ -334,8 +339,46 @@ func runScript(out *vh.Out, sc Script, idx int) {
 
 type abort struct{}
 
+// logCap captures what the processor under test prints (everything it prints goes through its log limiter), with
+// the wall-clock time of each line, while capOn is set (only around calls into the main rig).
+type logCap struct {
+	on    bool
+	t0    time.Time
+	lines []map[string]interface{}
+}
+
+func (c *logCap) Write(p []byte) (int, error) {
+	if c.on {
+		c.lines = append(c.lines, map[string]interface{}{"out": string(p), "now": time.Since(c.t0).Milliseconds()})
+	}
+	return len(p), nil
+}
+
+var lcap = &logCap{t0: time.Now()}
+var wantLogs = os.Getenv("VERIF_LOGS") != ""
+
+func capture(r, main *rig, f func()) {
+	lcap.on = wantLogs && r == main
+	defer func() { lcap.on = false }()
+	f()
+}
+
+func takeLogs(ev map[string]interface{}) {
+	if wantLogs {
+		if lcap.lines == nil {
+			lcap.lines = []map[string]interface{}{}
+		}
+		ev["logs"] = lcap.lines
+		lcap.lines = nil
+	}
+}
+
 func main() {
 	log.SetOutput(io.Discard)
+	if wantLogs {
+		log.SetFlags(0)
+		log.SetOutput(lcap)
+	}
 	var in In
 	vh.ReadJSON(os.Args[1], &in)
 	out := vh.NewOut(os.Stdout)
